@@ -248,9 +248,10 @@ func runOCI(rng *rand.Rand, i int) (res worker.Result) {
 			// a failing callback is returned
 			if li == 1 {
 				calls = 0
-				err := v.l.Tags(ctx, last, func(tags []string) error { calls++; return errCallback })
-				if !errors.Is(err, errCallback) {
-					res.Violate("callback-error-lost:oci-"+v.name, fmt.Sprintf("%s.Tags: callback failed, Tags returned %v", v.name, err), witness(v.name, last, nil))
+				ce := callbackErrors[(i+len(v.name))%len(callbackErrors)]
+				err := v.l.Tags(ctx, last, func(tags []string) error { calls++; return ce })
+				if !errors.Is(err, ce) {
+					res.Violate("callback-error-lost:oci-"+v.name, fmt.Sprintf("%s.Tags: callback failed with %q, Tags returned %v", v.name, ce, err), witness(v.name, last, nil))
 				}
 				if calls != 1 {
 					res.Violate("callback-after-failure:oci-"+v.name, fmt.Sprintf("%s.Tags: callback invoked %d times although the first call failed", v.name, calls), witness(v.name, last, nil))
